@@ -78,6 +78,12 @@ def configs(run):
     out.append(('segy heuristic planesets=3', segy_route(sgy3, 16, (4, 4, -1)), 16))
     # the SEG-Y producer's brick route (blocks cut out of the plane-set buffer and queued one by one)
     out.append(('segy per-block (8,8,16) 2 plane sets', segy_route(sgy3, 32, (8, 8, 16)), 32))
+    # a survey with holes (the placement route writes only the traces that exist: whatever else the buffer holds is compressed too)
+    sgyh = os.path.join(d, 'holes.sgy')
+    cells = [(i, x) for i in range(7) for x in range(5) if (i, x) not in ((0, 3), (2, 2), (5, 0), (6, 4))]
+    hdrh = [{segyio.TraceField.INLINE_3D: 10 + i, segyio.TraceField.CROSSLINE_3D: 20 + 2 * x, segyio.TraceField.CDP: t + 1} for t, (i, x) in enumerate(cells)]
+    inputs.write_segy_traces(sgyh, inputs.cube((len(cells), 40), run.seed + 9), np.arange(40) * 4.0, hdrh)
+    out.append(('segy with holes planesets=2', segy_route(sgyh, 16, (4, 4, -1)), 16))
     if not quick:
         out.append(('segy reduce_iops planesets=2', segy_route(sgy, 16, (4, 4, -1), reduce_iops=True), 16))
         out.append(('segy strip planesets=2', segy_route(sgy, 16, (4, 4, -1), header_detection='strip'), 16))
